@@ -211,6 +211,14 @@ void Exec::op_query(const Json& o,const std::string& op){
     }
     shp(op); check_all(c,"C08",sig); return;
   }
+  if(op=="eigen" && alive(a) && !c.mv[a].moved_from && c.mv[a].kind==K_EMPTY){
+    // GetEigenSystem() on a vector without storage ends in the library's "not initialized" exception (raised by GetGSLMatrix)
+    begin(op,"C15");
+    int rc=lib_call(c,[&]{ auto e=c.slot[a].v().GetEigenSystem(true); (void)e; });
+    bool fired=end();
+    settle(rc,fired,true,"C15","C15","eigen:empty");
+    shp("eigen:empty"); check_all(c,"C15",op); return;
+  }
   if(op=="getmatrix" && alive(a) && !c.mv[a].moved_from && c.mv[a].kind==K_EMPTY){
     // documented: GetGSLMatrix() on a vector without storage reports an error
     begin(op,"C15");
